@@ -68,6 +68,8 @@ def run(ck):
     if corr and not ck.violations:
         last["broken"] = "correspondence enc model vs implementation"
         ck.violation("correspondence model/implementation no longer checks (%d cases) although the output equals the spec" % corr, last, found_input=False)
+    if ck.tier == "thorough":
+        production_scale(ck)     # 40 MiB and > 4 GiB with the production constants (props/filegen.py)
     return finish_proof(ck, rule=("every length 0..%d" % (5 * CH + 1) if big else "140 cases, lengths k*chunk+{-17..1} and block boundaries first") +
                         " with 64-byte chunks, all 15 (cmode,hmode), T in {1,2,3,4,5,16}, seeds of 1..255 bytes (incl. lengths 55/56/63/64/119/120), random keys; output compared byte-for-byte with the extracted independent spec; every 5th case encrypted twice; input file compared before/after. distinct = distinct (n,cmode,hmode,T)",
                         assumptions=["real-thread runs explore one OS schedule each (all schedules: C03)", "the seed is the C string up to the first NUL"])
